@@ -117,7 +117,10 @@ func runC15E2E(r *ev.Run) {
 }
 
 func c15e2eCase(r *ev.Run, op muxOpener, g *rng.R, caseID string, caseN uint32) {
-	realm := memswarm.NewRealm(memswarm.WithQueueLen(512))
+	// the transport's receive buffers are recycled: with a short queue a layer that keeps a reference past the callback gets it
+	// overwritten by the next arrivals
+	qlen := []int{512, 4, 2, 8}[int(caseN)%4]
+	realm := memswarm.NewRealm(memswarm.WithQueueLen(qlen))
 	a, b := realm.NewSwarm(), realm.NewSwarm()
 	openA, openB := op.open(a), op.open(b)
 	ids := op.ids(g)
@@ -143,7 +146,11 @@ func c15e2eCase(r *ev.Run, op muxOpener, g *rng.R, caseID string, caseN uint32) 
 	ledger := map[string]int{} // payload -> channel index
 	var received, sent atomic.Int64
 	perChan := 6 + g.Intn(10)
-	// receivers
+	// receivers (in a third of the cases they only start once the senders are well under way: messages wait in the mux)
+	lateRecv := time.Duration(0)
+	if caseN%3 == 1 {
+		lateRecv = 3 * time.Millisecond
+	}
 	for i := range ids {
 		if i == unopened {
 			continue
@@ -153,6 +160,7 @@ func c15e2eCase(r *ev.Run, op muxOpener, g *rng.R, caseID string, caseN uint32) 
 			wg.Add(1)
 			go func() {
 				defer wg.Done()
+				time.Sleep(lateRecv)
 				for {
 					err := recvEnds[i].tell.Receive(ctx, func(m p2p.Message[memAddr]) {
 						pl := string(m.Payload)
